@@ -115,6 +115,11 @@ EDITS = {
         ("hp06", RT + "vm/heap.rs", "        obj.refcount == 0\n    } else {", "        obj.refcount <= 1\n    } else {", "both", "heap"),
     ],
     "C11": [
+        ("dt01", "crates/lib/plugins/mimium-audiodriver/src/driver.rs", "        self.sys_plugin_workers.iter_mut().for_each(\n            |plug: &mut Box<dyn SystemPluginAudioWorker>| {\n                let _ = plug.on_sample(time, &mut self.vm);\n            },\n        );\n        let rc = self.vm.execute_idx(self.dsp_i);\n", "        let rc = self.vm.execute_idx(self.dsp_i);\n        self.sys_plugin_workers.iter_mut().for_each(\n            |plug: &mut Box<dyn SystemPluginAudioWorker>| {\n                let _ = plug.on_sample(time, &mut self.vm);\n            },\n        );\n", "verus", "dsp_tick"),
+        ("dt02", "crates/lib/mimium-lang/src/runtime/wasm/engine.rs", "            worker.on_sample(time, &mut self.engine);", "            worker.on_sample(Time(time.0 + 1), &mut self.engine);", "verus", "dsp_tick"),
+        ("dt03", "crates/lib/plugins/mimium-audiodriver/src/backends/local_buffer.rs", "            self.count.store(now + 1, Ordering::Relaxed);", "            self.count.store(now + 2, Ordering::Relaxed);", "verus", "dsp_tick"),
+        ("dt04", "crates/lib/plugins/mimium-audiodriver/src/backends/local_buffer.rs", "            let _ = vmdata.run_dsp(Time(now));", "            let _ = vmdata.run_dsp(Time(now + 1));", "verus", "dsp_tick"),
+        ("dt05", "crates/lib/plugins/mimium-audiodriver/src/driver.rs", "                let _ = plug.on_sample(time, &mut self.vm);", "                let _ = plug.on_sample(Time(time.0.saturating_sub(1)), &mut self.vm);", "verus", "dsp_tick"),
         ("sc01", SCH + "scheduler.rs", "Some(Reverse(Task { when, closure })) if *when <= now => {", "Some(Reverse(Task { when, closure })) if *when < now => {", "verus", "scheduler"),
         ("sc02", SCH + "scheduler.rs", "self.when.cmp(&other.when)", "self.closure.cmp(&other.closure)", "both", "scheduler"),
         ("sc03", SCH + "scheduler.rs", "                let _ = self.tasks.pop();\n", "", "verus", "scheduler"),
@@ -128,6 +133,9 @@ EDITS = {
         ("sc11", SCH + "wasm_handle.rs", "self.state.lock().unwrap().current_time = time;", "self.state.lock().unwrap().current_time = time + 1;", "verus", "scheduler"),
     ],
     "C13": [
+        ("sp01", "crates/lib/mimium-lang/src/compiler/parser/tokenizer.rs", "let dot = Token::new(TokenKind::Dot, token.start + head_len, 1);", "let dot = Token::new(TokenKind::Dot, token.start + head_len + 1, 1);", "verus", "parser_tokens"),
+        ("sp02", "crates/lib/mimium-lang/src/compiler/parser/tokenizer.rs", "let tail = Token::new(TokenKind::Int, token.start + head_len + 1, tail_len);", "let tail = Token::new(TokenKind::Int, token.start + head_len + 1, tail_len - 1);", "verus", "parser_tokens"),
+        ("sp03", "crates/lib/mimium-lang/src/compiler/parser/tokenizer.rs", "            result.push(dot);\n", "", "verus", "parser_tokens"),
         ("pt01", PAR + "tokenizer.rs", "Token::new(TokenKind::Error, span.start, span.end - span.start)", "Token::new(TokenKind::Error, span.start, 1)", "verus", "parser_tokens"),
         ("pt02", PAR + "tokenizer.rs", "Token::new(kind, span.start, span.end - span.start)", "Token::new(kind, span.end, span.end - span.start)", "verus", "parser_tokens"),
         ("pt03", PAR + "tokenizer.rs", "tokens.push(Token::new(TokenKind::Eof, source.len(), 0));", "tokens.push(Token::new(TokenKind::Eof, source.len(), 1));", "verus", "parser_tokens"),
